@@ -28,6 +28,11 @@ def Tab.sys (t : Tab) : Sys String String String Unit where
     | none => 0
   -- the mechanism the source tree has (generated fact): does a controller reset drop the cached result?
   resetClearsCache := resetClearsCacheFact
+  -- certificate versions: the header's embedded version is not part of the op lines; on the source
+  -- tree's mechanism (`indexesLastCertFact = true`) it is never consulted
+  lastCertOf _ := 0
+  applyStale _ _ _ := .error ()
+  indexesLastCert := indexesLastCertFact
 
 structure St where
   tab : Tab := {}
@@ -75,11 +80,16 @@ def step (s : St) (line : String) : St × String :=
         | .ok _ => "ok"
         | o => showOutcome n' o)
     | none => (s, "bad-op")
-  | [name, op, blk, _gmp] =>
-    if op == "commit" || op == "sync" then
+  | name :: op :: blk :: _gmp :: cert =>
+    -- `cert=<hex>` (optional) names the version of the commit certificate delivered with the block
+    let v : Nat := match cert with
+      | [c] => (c.drop 5).toString.foldl (fun a ch =>
+          16 * a + (if ch.isDigit then ch.toNat - 48 else if 'a' ≤ ch && ch ≤ 'f' then ch.toNat - 87 else 0)) 0 + 1
+      | _ => 0
+    if (op == "commit" || op == "sync") && cert.length ≤ 1 then
       match s.get name with
       | some n =>
-        let (n', o) := commit s.tab.sys n blk
+        let (n', o) := commit s.tab.sys n blk (op == "sync") v
         (s.set name n', showOutcome n' o)
       | none => (s, "bad-op")
     else (s, "bad-op")
